@@ -26,7 +26,7 @@ C11_SHAPES_SLOW = ['c11_prec_not_eq', 'c11_prec_not_not_eq']
 C11_GATING = ['c11_gating_' + d + '_bounded' for d in ('define', 'undef', 'include', 'pragma', 'unknown', 'ifdef', 'if', 'elif', 'else', 'endif')]
 
 ALL_V_UNITS = ['cond_chain', 'cond_file', 'cond_parser', 'bindings', 'lexer_digits', 'lexer_float', 'token_stream', 'source_manager', 'layout',
-               'hlsl_bindings', 'hlsl_analyse', 'msl_analyse', 'hlsl_expr', 'hlsl_exprs', 'hlsl_literal', 'msl_literal', 'evaluator', 'fmt_paren', 'unlex', 'parser_annotations', 'compile_params']
+               'hlsl_bindings', 'hlsl_analyse', 'msl_analyse', 'hlsl_expr', 'hlsl_exprs', 'hlsl_literal', 'msl_literal', 'evaluator', 'fmt_paren', 'unlex', 'parser_annotations', 'compile_params', 'pp_trim']
 
 PROPS = {
     'C01': {
@@ -135,7 +135,7 @@ PROPS = {
     },
     'C14': {
         'title': 'Layout trivia never changes results and diagnostics track source positions',
-        'v_units': ['source_manager', 'token_stream'],
+        'v_units': ['source_manager', 'token_stream', 'pp_trim'],
         # API-driven bounded harness: keeps deciding (and gives a concrete input) when get_file_location is rewritten
         'k_groups': [{'module': 'text/location.rs',
                       'harnesses': [('c14_get_file_location_bounded', 'bounded:2 files of <= 3 and <= 2 bytes, 2 queries')],
